@@ -42,6 +42,7 @@
 #define private public
 #define protected public
 #include "TasmanianSparseGrid.hpp"
+#include "caselimit.hpp"
 #undef private
 #undef protected
 
@@ -434,16 +435,16 @@ int main(int argc, char **argv) {
         fflush(stdout);
         pid_t pid = fork();
         if (pid == 0) {
-            alarm((unsigned) case_timeout);
+            verif_case_limit(case_timeout);
             for (auto &l : c) run_guarded(l);
             fflush(stdout);
             _exit(0);
         }
         int status = 0; waitpid(pid, &status, 0);
         if (WIFSIGNALED(status)) {
-            if (WTERMSIG(status) == SIGALRM) printf("x hang no return within %d s\n", case_timeout);
-            else printf("x crash:%d terminated by signal\n", WTERMSIG(status));
-        } else if (WIFEXITED(status) && WEXITSTATUS(status) != 0) printf("x crash:exit%d abnormal exit\n", WEXITSTATUS(status));
+            if (verif_is_timeout(WTERMSIG(status))) printf("\nx hang no return within %d s\n", case_timeout);
+            else printf("\nx crash:%d terminated by signal\n", WTERMSIG(status));
+        } else if (WIFEXITED(status) && WEXITSTATUS(status) != 0) printf("\nx crash:exit%d abnormal exit\n", WEXITSTATUS(status));
         fflush(stdout);
     }
     return 0;
